@@ -2,6 +2,9 @@
 
 #include <cstdio>
 #include <utility>
+#ifdef YACLIB_VERIF
+#  include <yaclib/fault/verif_hook.hpp>
+#endif
 
 namespace yaclib::detail::fiber {
 
@@ -40,6 +43,11 @@ void FiberBase::Start() {
 }
 
 void FiberBase::Exit() {
+#ifdef YACLIB_VERIF
+  if (::yaclib::verif::gHooks != nullptr && ::yaclib::verif::gHooks->on_fiber != nullptr) {
+    ::yaclib::verif::gHooks->on_fiber(::yaclib::verif::kExit, _id, 0, nullptr, 0);
+  }
+#endif
   _state = Completed;
   if (_joining_fiber != nullptr && _thread_alive) {
     ScheduleFiber(_joining_fiber);
